@@ -194,3 +194,60 @@ def step (st : St) (ws : List String) : St × String :=
 
 def stream : StreamDef := { σ := St, init := {}, step := step }
 end Drv.Cons
+
+namespace Drv.Vec
+open Spec.Lachesis Drv.Cons
+
+structure St where
+  vals : List (Nat × Nat) := []
+  events : List (Nat × Ev) := []
+  insts : List (Nat × Inst) := []
+  vmodels : List (Nat × Model.Vec.VState) := []
+
+def step (st : St) (ws : List String) : St × String :=
+  match ws with
+  | "vals" :: ps => ({ st with vals := parsePairs ps }, "ok")
+  | ["idx", k, _] =>
+    if st.vals.isEmpty then (st, "novals") else
+    let i := Inst.fresh 1 st.vals
+    ({ st with insts := (nat! k, i) :: st.insts.filter (fun x => x.1 != nat! k),
+               vmodels := (nat! k, Model.Vec.VState.init i.nv) :: st.vmodels.filter (fun x => x.1 != nat! k) }, "ok")
+  | "ev" :: n :: rest =>
+    let e := mkEv (nat! n) 1 rest 0
+    if !e.parents.all (fun p => (st.events.lookup p).isSome) then (st, "err unknown-parent") else
+    ({ st with events := (e.n, e) :: st.events }, "ok")
+  | op :: k :: rest =>
+    match st.insts.lookup (nat! k) with
+    | none => (st, "noinst")
+    | some i =>
+      let v := (st.vmodels.lookup (nat! k)).getD (Model.Vec.VState.init i.nv)
+      match op, rest with
+      | "add", [n] =>
+        match st.events.lookup (nat! n) with
+        | none => (st, "unknown-event")
+        | some e =>
+          if (i.posOf e.n).isSome then (st, "dup") else
+          match i.insert e with
+          | none => (st, "err noparent")
+          | some i' =>
+            let v' := v.add (vecEvent i e)
+            ({ st with insts := (nat! k, i') :: st.insts.filter (fun x => x.1 != nat! k),
+                       vmodels := (nat! k, v') :: st.vmodels.filter (fun x => x.1 != nat! k) }, "ok")
+      | "fc", [a, b] =>
+        match i.posOf (nat! a), i.posOf (nat! b) with
+        | some pa, some pb =>
+          let same := v.fc i.weightIdx i.quorum pa pb == i.fcSpec pa pb
+          (st, b2s (i.fcSpec pa pb) ++ (if same then "" else " VECTOR-MODEL-DIFFERS"))
+        | _, _ => (st, "na")
+      | "hb", [a] =>
+        match i.posOf (nat! a) with
+        | some pa =>
+          let same := (List.range i.nv).all (fun c => v.merged pa c == i.hbSpec pa c)
+          (st, ",".intercalate ((List.range i.nv).map (fun c => match i.hbSpec pa c with | none => "F" | some q => toString q))
+               ++ (if same then "" else " VECTOR-MODEL-DIFFERS"))
+        | none => (st, "na")
+      | _, _ => (st, "bad-op")
+  | _ => (st, "bad-op")
+
+def stream : StreamDef := { σ := St, init := {}, step := step }
+end Drv.Vec
